@@ -73,6 +73,13 @@ func V[T any](id int, x T) T {
 	return x
 }
 
+// X logs "expression id evaluated" without its value (values whose rendering is not
+// stable across runs: channels, maps, pointers).
+func X[T any](id int, x T) T {
+	Log("x" + strconv.Itoa(id))
+	return x
+}
+
 // R logs a variable read.
 func R[T any](id int, x T) T {
 	Log("r" + strconv.Itoa(id) + "=" + Show(x))
@@ -130,6 +137,9 @@ func Any(id int, n int) any {
 	}
 	return nil
 }
+
+// False is a silent runtime false (keeps a statically present yield unreachable).
+func False() bool { return len(ev) < 0 }
 
 // U "uses" values (keeps generated sources free of unused-variable errors).
 func U(xs ...any) {}
